@@ -77,8 +77,18 @@ def judge(rep, pid, tier, seed, only=None, args=None):
             rep.sample(e)
     prefix = pid.lower() + "_"
     seen = set()
+    # runs in which the consumer's commit callback panics once: the worker loop is restarted in the middle of an iteration, which
+    # the conformance specification (an iteration runs to its end) does not describe - those runs are judged by the monitor only
+    panic_run, cur = {}, False
+    for i, e in enumerate(lines, 1):
+        if e["ev"] == "init":
+            cur = bool(e.get("consumer_panics"))
+        panic_run[i] = cur
+    rep.extra["runs_with_a_panicking_commit_callback"] = sum(1 for e in lines if e["ev"] == "init" and e.get("consumer_panics"))
     for l in sorted(bad):
         e = lines[l - 1]
+        if panic_run.get(l):
+            bad[l] = [t for t in bad[l] if "_conf_" not in t]
         for tag in sorted(set(bad[l])):
             if tag.startswith("drift_"):
                 if len(rep.drift) < 10:
